@@ -176,7 +176,13 @@ func (s *Server) serve(ctx context.Context) {
 			}
 		} else {
 			tempDelay = 0
-			go s.startSession(sessionID, conn, log.Logger)
+			// Count the session before its goroutine is started: startSession only registers
+			// itself once it runs, and Drain() must not miss a connection that was accepted.
+			s.wg.Add(1)
+			go func(id int) {
+				defer s.wg.Done()
+				s.startSession(id, conn, log.Logger)
+			}(sessionID)
 		}
 	}
 }
